@@ -8,8 +8,8 @@ import asyncio
 import aiortc.rtcsctptransport as S
 from checks.sctp_common import base_problems, complete_delivery, drain_verdict, session_classes
 from vlib.runner import Check, Family, Outcome
-from vlib.sctpsim import Session
-from vlib.strategies import abandon_case, session_case, yielding
+from vlib.sctpsim import Session, chunk_types
+from vlib.strategies import abandon_case, bundling, session_case, yielding
 
 
 def run_session(case: dict) -> Outcome:
@@ -19,7 +19,7 @@ def run_session(case: dict) -> Outcome:
 
     def tap(side: int, data: bytes) -> None:
         # count FORWARD-TSN chunks put on the wire (chunk type 192 right after the common header)
-        if len(data) > 12 and data[12] == 192:
+        if 192 in chunk_types(data):
             fwd["n"] += 1
 
     async def after_drain(sess: Session) -> None:
@@ -102,6 +102,7 @@ CHECK = Check(
                                          loss_bias=True, burst_bias=True, warmup=True),
                quick=5000, thorough=100000, min_shard=20),
         Family("forward-tsn", run_session, abandon_case, quick=3000, thorough=60000, min_shard=20),
+        Family("bundling", run_session, lambda tier: bundling(abandon_case(tier)), quick=1500, thorough=40000, min_shard=20),
         Family("yielding-send", run_session,
                lambda tier: yielding(session_case(tier, reliable_only=False, need_partial=True, max_sends=30 if tier == "quick" else 60,
                                                   loss_bias=True, burst_bias=True, warmup=True)),
